@@ -414,25 +414,53 @@ pub fn scenarios(quick: bool, rng: &mut Rng) -> Vec<Scn> {
             v.push(Scn { name: "v5/client keep-alive 5, server keep-alive 1 in CONNACK".into(), role, cfg, raw: false, busy: false, timeline: vec![], observe_ms: 5000, expect: Expect::ClientPings { period: 1.0 }, live_gap: None });
         }
     }
-    // thorough: random arrival patterns on the 0.1 s grid, keep-alive 2 (time-out 3 s)
+    // thorough: random arrival patterns, keep-alive from the client (2 -> 3 s) or imposed (2 / 3 s)
     if !quick {
-        for i in 0..160u64 {
+        for i in 0..480u64 {
             let role = if i % 2 == 0 { Role::V3Server } else { Role::V5Server };
             let ver = role.ver();
             let mut cfg = ConnCfg::new(role);
-            cfg.keep_alive = 2;
-            let n = 2 + rng.below(6);
-            let mut t = 200 + rng.below(800);
+            let timeout: f64 = match rng.below(3) {
+                0 => {
+                    cfg.keep_alive = 2;
+                    3.0
+                }
+                1 => {
+                    cfg.keep_alive = 10;
+                    cfg.hs.keepalive = Some(2);
+                    2.0
+                }
+                _ => {
+                    cfg.keep_alive = 1;
+                    cfg.hs.keepalive = Some(3);
+                    3.0
+                }
+            };
+            // complete packets at most (timeout - EARLY - 0.8) s apart
+            let budget = ((timeout - EARLY - 0.8) * 1000.0) as u64;
+            let n = 1 + rng.below(7);
+            let mut t = 150 + rng.below(budget / 2);
             let mut tl = Vec::new();
-            for j in 0..n {
+            for _ in 0..n {
                 let frags = 1 + rng.below(3) as usize;
-                let part = traffic(ver, t, 1, 0, frags, 100 + rng.below(150));
-                let _ = j;
-                t = part.last().unwrap().0 + 200 + rng.below(800);
+                let frag_ms = 80 + rng.below(120);
+                let part = traffic(ver, t, 1, 0, frags, frag_ms);
+                let spent = (frags as u64 - 1) * frag_ms;
+                t = part.last().unwrap().0 + 150 + rng.below(budget - spent - 150);
                 tl.extend(part);
             }
             let last = tl.last().unwrap().0;
-            v.push(Scn { name: format!("{} random pattern #{i}: {n} packets, gaps < 1.6s, then silence", role.name()), role, cfg, raw: false, busy: rng.below(3) == 0, timeline: tl, observe_ms: last + ((3.0 + LATE + 0.5) * 1000.0) as u64, expect: Expect::KeepAlive { timeout: 3.0 }, live_gap: Some(3.0 - EARLY) });
+            v.push(Scn {
+                name: format!("{} random pattern #{i}: {n} packets, time-out {timeout}s, then silence", role.name()),
+                role,
+                cfg,
+                raw: false,
+                busy: rng.below(3) == 0,
+                timeline: tl,
+                observe_ms: last + ((timeout + LATE + 0.5) * 1000.0) as u64,
+                expect: Expect::KeepAlive { timeout },
+                live_gap: Some(timeout - EARLY),
+            });
         }
     }
     v
@@ -466,6 +494,7 @@ pub fn run(opts: &Opts) -> i32 {
     }
     rep.extra("scenarios", json!(scns.len()));
     let timings: std::sync::Mutex<Vec<serde_json::Value>> = std::sync::Mutex::new(Vec::new());
+    let late: std::sync::Mutex<Vec<String>> = std::sync::Mutex::new(Vec::new());
     let threads = scns.len().clamp(1, 128);
     pool::par_for_n(threads, scns.len() as u64, None, |i| {
         let s = &scns[i as usize];
@@ -490,7 +519,10 @@ pub fn run(opts: &Opts) -> i32 {
                     println!("end {:?} pings {:?} violations {:?}", o.end_s, o.pings, o.violations);
                 }
                 if let Some(w) = &o.inconclusive {
-                    rep.inconclusive(w.clone());
+                    // this scenario decides nothing (the harness missed its own schedule); the
+                    // check as a whole is inconclusive only if that happens to many of them
+                    rep.count("scenarios_undecided_because_the_harness_was_late", 1);
+                    late.lock().unwrap().push(w.clone());
                 }
                 for (class, what) in &o.violations {
                     rep.violation(Violation { signature: format!("{}: {}", s.name.split(" #").next().unwrap_or(&s.name), class), what: format!("{class} — {what}"), replay: json!({"case": rj, "log": o.log}) });
@@ -500,8 +532,16 @@ pub fn run(opts: &Opts) -> i32 {
             Run::Livelock(tail) => rep.violation(Violation { signature: format!("{}: live-lock", s.name), what: "never quiescent".into(), replay: json!({"case": rj, "log": tail}) }),
             Run::Watchdog => rep.inconclusive(format!("watchdog {}", s.name)),
         }
-        r.after()
+        // the runtime's timer wheel lives in thread-locals that do not survive their runtime:
+        // every timed scenario gets a brand new thread
+        let _ = r.after();
+        pool::After::RetireThread
     });
+    let late = late.into_inner().unwrap();
+    if late.len() * 10 > scns.len() {
+        rep.inconclusive(format!("{} of {} scenarios undecided because the harness was late (machine overloaded?)", late.len(), scns.len()));
+    }
+    rep.extra("undecided_scenarios", json!(late));
     let mut t = timings.into_inner().unwrap();
     t.sort_by_key(|v| v["scenario"].as_str().unwrap_or("").to_string());
     rep.extra("measured", json!(t));
